@@ -61,10 +61,27 @@ def gen_csv(rng, n, tier, h=0):
             e, nn = rng.choice(PERMS[2]); u = -1; t = -1
         out.append({'srid': srid, 'pts': [rand_xyz(rng, srid) for _ in range(k)], 'T': [rand_time(rng) for _ in range(k)], 'ids': [e, nn, u, t], 'sep': rng.choice([',', ';', '|', '\t']), 'h': h if h == 0 else rng.choice([1, 1, 2, 3, 3]),
                     'prior': rng.choice([None, None, None, 'export', 'text'])})
+        if t >= 0 and rng.random() < 0.15:
+            # another timestamp layout, selected for printing and for reading as the API allows (two-digit years are those of 2000..2099; ISO-like order); oracle only
+            out[-1]['tfmt'] = rng.choice(['2D/2M/2Y 2h:2m:2s', '2D/2M/2Y 2h:2m:2s', '4Y-2M-2D 2h:2m:2s', '2h:2m:2s 2D.2M.4Y'])
+            if '2Y' in out[-1]['tfmt']:
+                out[-1]['T'] = [T if T >= 946684800 else T + 946684800 + 86400 * 365 * 60 for T in out[-1]['T']]
     return out
 
 
 def run_csv(case):
+    from tracklib.core import ObsTime
+    if case.get('tfmt'):
+        pf, rf = ObsTime.getPrintFormat(), ObsTime.getReadFormat()
+        ObsTime.setPrintFormat(case['tfmt']); ObsTime.setReadFormat(case['tfmt'])
+        try:
+            return run_csv_(case)
+        finally:
+            ObsTime.setPrintFormat(pf); ObsTime.setReadFormat(rf)
+    return run_csv_(case)
+
+
+def run_csv_(case):
     from tracklib.core import ObsTime
     from tracklib.io.track_writer import TrackWriter
     from tracklib.io.track_reader import TrackReader
@@ -87,7 +104,7 @@ def run_csv(case):
 
 
 def coq_csv(case, obs):
-    if 'exc' in obs:
+    if 'exc' in obs or case.get('tfmt'):
         return None
     e, nn, u, t = case['ids']
     lines = [l for l in obs['text'].split('\n')[:-1] if not l.startswith('#')]             # header / comment lines are skipped by the reader
